@@ -63,6 +63,8 @@ def C02(tier):
     jobs += spread(hq, "pingpong", 24 * m, 3, )
     jobs += spread(hq, "mixed", 16 * m, 2)
     jobs += [hq("window", 16 * m, first=0), hq("window3", 16 * m, first=0), hq("window3", 8 * m, first=100, ncpu=2)]
+    # serial queues inside target-queue hierarchies (sync / async_and_wait recursing through levels)
+    jobs += spread(hq, "hier", 16 * m, 2)
     jobs += [Job("hooks", "h_mainq", ["--trials=%d" % (2 * m)], timeout=300, tag="h_mainq")]
     jobs += [hq("serial", 6 * m, first=900, flavor="tsan", scale=25, timeout=900, perturb="uniform"),
              hq("pingpong", 4 * m, first=950, flavor="tsan", scale=25, timeout=900, perturb="uniform")]
